@@ -2,7 +2,7 @@
 import engine
 
 OPS = ["equal", "cmp", "is_zero", "first_zero_row", "find_pivot", "rw_bit"]
-PROOFS = ["Properties_C17"]
+PROOFS = ["Properties_C17", "Properties_C17t"]
 
 
 def run(res, tier, seed):
